@@ -14,8 +14,8 @@
       `T(i, perm[c]) += *b++`, so `T` holds the same SUM — `Cov.gather_spec`, no `Nodup` hypothesis);
       the witness `Ex.repNp` / `Ex.repMat` / `Ex.repCov` (a correlated block whose first row stores column 1 twice),
       evaluated over `Rat` (every pivot is 1, so the marker `sqrt = id` of `Scalar Rat` is exact on it):
-      `rep_same_input`, `rep_dense_path`, `rep_sparse_path`, `rep_agree`; `rep_ls_model_last_wins` (the LS-side model
-      `Env.homogenize` / `Problem.dense` still reads a repeated column as last-write-wins);
+      `rep_same_input`, `rep_dense_path`, `rep_sparse_path`, `rep_agree`; `rep_ls_model_sums` (the LS-side model
+      `Env.homogenize` / `Problem.dense` reads a repeated column as the SUM too, round 11);
     * non-vacuity of the sparse-path bridge: `Ex.npRMat`, `Ex.npRCov` hold the correlated network `Ex.npR`
       (`npR_holds : Env.HoldsProblem (toProblem npR) npRMat npRCov []`) and `Hom.run` accepts them (`npR_homrun_accepted`).
 -/
@@ -256,8 +256,8 @@ end
     sparse path (`Homogenization::run`, gather `T(i,perm[c]) += a`):           `A = [[0,0],[0,1]]`, `L⁻¹A = [[0,0],[0,1]]`
       (row 1 of the output is EMPTY: the exact zero `T(1,1)` is dropped; row 2 is `(2, 1)`).
   Both homogenise `rhs` to `(1, 1)`.  Before /repo 6d0f7107 (gather `T(i,perm[c]) = a`, the last value won) the sparse
-  path homogenised `A = [[1,0],[0,1]]` to `[[1,0],[−1,1]]`; the LS-side MODEL `Env.homogenize` (`Problem.dense`, built with
-  `=`: `AdjDense.rowDense`) still does — `rep_ls_model_last_wins`. -/
+  path homogenised `A = [[1,0],[0,1]]` to `[[1,0],[−1,1]]`; so did the LS-side MODEL `Env.homogenize` until `Problem.dense`
+  (`AdjDense.rowDense`) became a sum (round 11) — `rep_ls_model_sums`. -/
 namespace Ex
 
 def repNp : Net.NetProblem Rat :=
@@ -293,11 +293,12 @@ theorem rep_sparse_path :
         (fun o => (@SMat.toRows Rat ⟨0⟩ o.sm, o.pr)) = some ([[], [(2, 1)]], #[1, 1]) := by
   decide +kernel
 
-/-- what is LEFT of the difference: the LS-side model of the envelope solver's homogenisation reads its dense matrix
-    `Problem.dense` with `=` (`AdjDense.rowDense`: the last stored value wins), so on this input it still homogenises
-    `[[1,0],[0,1]]` to `[[1,0],[−1,1]]` — which is why `hom_run_eq_homogenize` keeps its `nodupRows` hypothesis -/
-theorem rep_ls_model_last_wins :
-    (Env.homogenize (Net.toProblem repNp)).toOption.map (fun h => (h.At, h.bt)) = some (#[#[1, 0], #[-1, 1]], #[1, 1]) := by
+/-- the LS-side model of the envelope solver's homogenisation reads its dense matrix `Problem.dense` with `+=`
+    (`AdjDense.rowDense`: coefficients stored with the same column index add up, as in every C++ consumer), so on this
+    input it homogenises `[[0,0],[0,1]]` to `[[0,0],[0,1]]` like the other two paths (before round 11: last-write-wins,
+    `[[1,0],[−1,1]]`) -/
+theorem rep_ls_model_sums :
+    (Env.homogenize (Net.toProblem repNp)).toOption.map (fun h => (h.At, h.bt)) = some (#[#[0, 0], #[0, 1]], #[1, 1]) := by
   decide +kernel
 
 /-- **the two paths agree**: both accept, the homogenised design matrix is `[[0,0],[0,1]]` on the dense path and the
